@@ -28,3 +28,5 @@ run mutants/revert_f910731.diff C17
 run mutants/revert_34617cc.diff C17
 run mutants/revert_ae22d29.diff C04 C18
 run mutants/revert_6bdc8ef.diff C14
+run mutants/revert_b8920e5.diff C08
+run mutants/revert_9ebadb4.diff C14
